@@ -61,7 +61,7 @@ func checkWire(out []byte, want []outItem) string {
 
 func TestC16_OutgoingFramesWellFormed(t *testing.T) {
 	rec := evid.For("C16")
-	rec.SetRule("rapid histories of 1..12 submissions over a scripted transport (VerifAttach): Write/AsyncWrite (text/binary, sizes from {0,1,125,126,127,65535,65536,max-1,max,max+1}, max=70000), WriteFrame/AsyncWriteFrame with caller-built frames (AcquireFrame + opcode/FIN; with payload, with empty payload, without SetPayload), inbound pings (auto Pong, 0..125 bytes) and a final peer or local Close; async transport completions inline or parked; one write in flight at a time; oracle = the complete captured byte stream parses with an independent RFC 6455 parser into exactly the submitted frames in order (mask bit, unmasked payload == caller bytes, shortest length encoding, no trailing bytes), over-max => ErrMessageTooBig and nothing written; non-trivial = a frame built after a strictly longer one was released to the pool OR a frame without payload OR >=3 frames flushed by one call; TestC16_Bursts: 2..9 AsyncWrite/AsyncWriteFrame/AsyncClose submissions and inbound pings (auto Pong joins the queue when the read completes) issued without waiting for the previous completion, transport completions released one at a time by the harness, oracle = wire frames equal the submissions in submission order + every callback once with nil + no overlapping transport write, non-trivial there = >=3 frames queued while a transport write is in flight; distinct = hash of the history")
+	rec.SetRule("rapid histories of 1..12 submissions over a scripted transport (VerifAttach): Write/AsyncWrite (text/binary, sizes from {0,1,125,126,127,65535,65536,max-1,max,max+1} and k*{512,4096,8192}-(0..24), i.e. next to the capacities the write buffer grows through, max=70000), WriteFrame/AsyncWriteFrame with caller-built frames (AcquireFrame + opcode/FIN; with payload, with empty payload, without SetPayload), inbound pings (auto Pong, 0..125 bytes) and a final peer or local Close; async transport completions inline or parked; one write in flight at a time; oracle = the complete captured byte stream parses with an independent RFC 6455 parser into exactly the submitted frames in order (mask bit, unmasked payload == caller bytes, shortest length encoding, no trailing bytes), over-max => ErrMessageTooBig and nothing written; non-trivial = a frame built after a strictly longer one was released to the pool OR a frame without payload OR >=3 frames flushed by one call; TestC16_Bursts: 2..9 AsyncWrite/AsyncWriteFrame/AsyncClose submissions and inbound pings (auto Pong joins the queue when the read completes) issued without waiting for the previous completion, transport completions released one at a time by the harness, oracle = wire frames equal the submissions in submission order + every callback once with nil + no overlapping transport write, non-trivial there = >=3 frames queued while a transport write is in flight; distinct = hash of the history")
 	rec.Assume("TestC16_OutgoingFramesWellFormed keeps one application write in flight at a time (TestC16_Bursts lifts that); the transport is all-or-error for AsyncWriteAll like the real adapter")
 	vt.CheckSteps(t, 2000, 12, func(t *rapid.T) {
 		max := 70000
@@ -120,7 +120,16 @@ func TestC16_OutgoingFramesWellFormed(t *testing.T) {
 					t.Skip()
 				}
 				bin := rapid.Bool().Draw(t, "bin")
-				n := rapid.OneOf(rapid.IntRange(0, 40), rapid.IntRange(0, 40), rapid.IntRange(0, 700),
+				// sizes next to the capacities a growing write buffer passes through (a frame that just fits / just does not)
+				nearCap := rapid.Custom(func(t *rapid.T) int {
+					unit := rapid.SampledFrom([]int{512, 4096, 4096, 8192}).Draw(t, "unit")
+					v := unit*rapid.IntRange(1, 16).Draw(t, "mult") - rapid.IntRange(0, 24).Draw(t, "below")
+					if v > max {
+						v = max - rapid.IntRange(0, 24).Draw(t, "belowMax")
+					}
+					return v
+				})
+				n := rapid.OneOf(rapid.IntRange(0, 40), rapid.IntRange(0, 40), rapid.IntRange(0, 700), nearCap, nearCap,
 					rapid.SampledFrom([]int{0, 1, 125, 126, 127, 65535, 65536, max - 1, max, max + 1, max + 1})).Draw(t, "len")
 				b := make([]byte, n)
 				fill := byte(rapid.IntRange(0, 255).Draw(t, "fill"))
